@@ -79,6 +79,7 @@ func c17More(g *g17, count int) {
 	}
 	c17Samplers(g)
 	c17Pending(g)
+	c17Leftovers(&g17{g.c, NewRng(g.c.Seed, 1712)}, count/25)
 }
 
 // c17Pending: lines that reproduce defects found while extending the stream and reported to the coordinator,
@@ -923,6 +924,45 @@ func c17MiscMore(g *g17) {
 				return "err"
 			}
 			return hx(a.Big()) + "," + hx(b.Big()) + "," + bb(err3 != nil)
+		})
+	}
+}
+
+// c17Leftovers: the last constructors/constants the coverage join still listed (NPlus.FromRat/FromUint64/
+// FromUnsignedNumeric/Random/Bottom, structure constants, Euclidean valuations). Own RNG stream, appended
+// after everything else so that the earlier lines do not change.
+func c17Leftovers(g *g17, count int) {
+	for it := 0; it < count; it++ {
+		a := g.natN(1 + g.r.IntN(200))
+		rn, rd := ratOf(g)
+		u := g.r.Uint64()
+		if g.r.IntN(3) == 0 {
+			u = uint64(g.r.IntN(3))
+		}
+		lo, hi := posNat(g, 150), posNat(g, 150)
+		if lo.Cmp(hi) > 0 {
+			lo, hi = hi, lo
+		}
+		if g.r.IntN(5) == 0 {
+			hi = new(big.Int).Set(lo)
+		}
+		m := g.prime()
+		if g.r.IntN(3) == 0 {
+			m = g.modulus()
+		}
+		g.emit(fmt.Sprintf("NP.ctor %s %s|%s %s %s %s %s", hx(a), hx(rn), hx(rd), strconv.FormatUint(u, 16), hx(lo), hx(hi), hx(m)), func() string {
+			g.alias("NP.Bottom/OpIdentity/One", hx(num.NPlus().Bottom().Big())+hx(num.NPlus().OpIdentity().Big())+hx(num.NPlus().One().Big()), "111")
+			g.alias("Z.OpIdentity/Zero/One", hx(num.Z().OpIdentity().Big())+hx(num.Z().Zero().Big())+hx(num.Z().One().Big()), "001")
+			g.alias("structure.Contains", bb(num.N().Contains(mustN(a)))+bb(num.Z().Contains(mustZ(a)))+bb(num.Q().Contains(mkRat(rn, rd)))+bb(num.NPlus().Contains(mustNP(lo))), "1111")
+			g.alias("structure.Order", cardS(num.N().Order())+cardS(num.Z().Order())+cardS(num.Q().Order())+cardS(num.NPlus().Order()), "infinfinfinf")
+			rnd := "err"
+			if v, err := num.NPlus().Random(mustNP(lo), mustNP(hi), g.r); err == nil {
+				rnd = hx(v.Big())
+			}
+			zn, _ := num.NewZMod(mustNP(m))
+			x, _ := zn.FromBig(a)
+			return joinComma([]string{optBig(num.NPlus().FromRat(mkRat(rn, rd))), optBig(num.NPlus().FromUint64(u)), optBig(num.NPlus().FromUnsignedNumeric(mustN(a))),
+				cardS(mkRat(rn, rd).EuclideanValuation()), strconv.Itoa(x.AnnouncedLen()), rnd})
 		})
 	}
 }
